@@ -30,6 +30,8 @@ LIBC = {
     'isnan': lambda v: int(v != v), 'std::isnan': lambda v: int(v != v), '__builtin_isnan': lambda v: int(v != v),
     'isinf': lambda v: int(v in (float('inf'), float('-inf'))), 'std::isinf': lambda v: int(v in (float('inf'), float('-inf'))),
     '__builtin_isinf': lambda v: int(v in (float('inf'), float('-inf'))),
+    'iscntrl': lambda v: int(0 <= v < 32 or v == 127),
+    'isprint': lambda v: int(32 <= v < 127),
     'toupper': lambda v: v - 32 if 97 <= v <= 122 else v,
     'tolower': lambda v: v + 32 if 65 <= v <= 90 else v,
 }
